@@ -371,3 +371,63 @@ def datagram_receiver_rule(rep, u, fname="tp_task_pkt_rcvr_handler"):
                                              "with result 0 the loop is left before the callback: the empty datagram and its sender never reach the caller, and the "
                                              "datagrams queued behind it wait for the next event" if leaves else "")
     return 2
+
+
+
+# ------------------------------------------------------------------ fourth audit (replays/C16-hunt4)
+
+def window_validation_rule(rep, u, fname="tp_task_start_ex"):
+    """the transfer window (offset + transfer_size <= size of the io buffer) is validated on every start path - before the
+    branch that schedules the first I/O through the pool - before the task record is changed, and without an addition that
+    can wrap"""
+    fn = tp.need(u, fname)
+    rep.functions.add(fname)
+    tparm = [p_ for p_ in fn.params if "tp_task" in fn.unit.tstr(p_["t"])]
+    if not tparm:
+        raise driver.AnalysisBroken("%s: task parameter not found" % fname)
+    stores = [pos for pos, root, x, ps in fn.nodes() if x.get("k") == "bin" and x["op"] == "=" and core.strip_casts(x["x"]).get("k") == "mem" and
+              core.base_ref(x["x"]) is not None and core.base_ref(x["x"]).get("id") == tparm[0]["id"]]
+    if not stores:
+        raise driver.AnalysisBroken("%s: stores to the task record not found" % fname)
+    first = min(stores, key=lambda p_: (0 if all(fn.pos_dominates(p_, q) or p_ == q for q in stores) else 1))
+    checks = []
+    for bid in fn.reachable_blocks():
+        c = fn.blocks[bid].cond
+        if c is None:
+            continue
+        ks = key(c)
+        if "->size" in ks and ("transfer_size" in ks or "->offset" in ks):
+            checks.append((bid, c))
+    # (the test is one link of a short-circuit chain: it lies before the first store and one of its edges leaves)
+    ok_dom = any(b != first[0] and first[0] in fn.reach_from([b]) and any(first[0] not in fn.reach_from([s_]) for s_ in fn.blocks[b].rsucc()) and
+                 not any(st[0] in fn.reach_from([fn.entry], avoid=[b]) and b in fn.reach_from([st[0]]) for st in stores) for b, c in checks)
+    desc = "%s: the buffer window is validated before the task record is changed, whichever way the first I/O is scheduled" % fname
+    (rep.proved if ok_dom else rep.violated)("R-WINDOW", fn, "window-validated-on-every-path", desc, "" if ok_dom else
+                                             "the test sits behind `0 != shedule_first_io` and after the stores: tp_task_start(size 16, offset 8, transfer_size 32) returns 0 and "
+                                             "recv writes 24 bytes behind the buffer")
+    wraps = [c for b, c in checks if any(y.get("k") == "bin" and y["op"] == "+" and "offset" in key(y) and "transfer_size" in key(y) for y, _ in walk(c))]
+    desc = "%s: the window test does not add offset and transfer_size (the sum wraps for offset = (size_t)-8)" % fname
+    (rep.violated if wraps or not checks else rep.proved)("R-WINDOW", fn, "window-test-does-not-wrap", desc, ("%s: offset (size_t)-8 + 16 wraps to 8, the call returns 0 and 8 bytes are written in "
+                                                          "front of the buffer" % key(wraps[0])[:60]) if wraps else ("no window test" if not checks else ""))
+    return 2
+
+
+def setter_null_rule(rep, u):
+    """the tp_task_*_set() setters ignore a NULL task like their siblings: the store through the task pointer is not reached
+    with the pointer NULL (value-following search)"""
+    from props.c15_audit import value_reaches
+    n = 0
+    for fn in u.function_list:
+        if fn.relfile() != tp.TASK_C or not fn.has_cfg or not (fn.name.startswith("tp_task_") and fn.name.endswith("_set")) or not fn.params:
+            continue
+        P = fn.params[0]
+        for pos, root, x, ps in fn.nodes():
+            if x.get("k") == "bin" and x["op"] in ("=", "|=", "&=") and core.strip_casts(x["x"]).get("k") == "mem" and core.base_ref(x["x"]) is not None and core.base_ref(x["x"]).get("id") == P["id"]:
+                n += 1
+                rep.functions.add(fn.name)
+                ref = {"k": "ref", "n": P["n"], "id": P["id"], "dk": "parm", "t": P["t"]}
+                bad = value_reaches(fn, pos, ref, 0)
+                desc = "%s: the store through %s is not reached with %s == NULL" % (fn.name, P["n"], P["n"])
+                (rep.violated if bad else rep.proved)("R-NULLSET", fn, "null-task-ignored:%s" % key(core.strip_casts(x["x"]))[:30], desc,
+                                                      "the guard lets NULL through (`NULL == task && NULL != arg` where || is meant): %s(NULL, NULL) is a NULL dereference" % fn.name if bad else "", x.get("ln"))
+    return n
